@@ -283,6 +283,18 @@ func (x *Exec) bigAnd(e *Env, a, b *Term) *Term {
 
 // bigOr: x | y = x + y when x is a multiple of 2^k and 0 <= y < 2^k (the only use in this repository).
 func (x *Exec) bigOr(e *Env, a, b *Term) *Term {
+	// hi | lo with hi a multiple of 2^k and 0 <= lo < 2^k known from the bounds of this path: hi + lo
+	for _, p := range [][2]*Term{{a, b}, {b, a}} {
+		hi, lo := p[0], p[1]
+		if hi.Op == "*" && len(hi.Args) == 2 && hi.Args[1].Op == "const" {
+			c := hi.Args[1].V
+			if c.Sign() > 0 && new(big.Int).And(c, new(big.Int).Sub(c, big.NewInt(1))).Sign() == 0 {
+				if iv := e.termBounds(lo, e.varBounds(), map[*Term]*ival{}, 0); iv != nil && iv.lo.Sign() >= 0 && iv.hi.Cmp(c) < 0 {
+					return Add(hi, lo)
+				}
+			}
+		}
+	}
 	r := App("big_or", IntS, a, b)
 	for _, p := range [][2]*Term{{a, b}, {b, a}} {
 		hi, lo := p[0], p[1]
